@@ -48,6 +48,11 @@ Proof. apply disjointb_spec. vm_compute. reflexivity. Qed.
 Theorem C01_log_returns : forall f, In f external_calls -> ~ In f no_return_family.
 Proof. apply disjointb_spec. vm_compute. reflexivity. Qed.
 
+(** nothing the library calls answers through a process-wide static object or advances a hidden cursor: strings the caller obtained from
+    [getpwuid], [getgrgid], [ttyname], [strtok]... and now hands to exec are not rewritten by the logging work *)
+Theorem C01_no_shared_static_results : forall f, In f external_calls -> ~ In f static_result_family.
+Proof. apply disjointb_spec. vm_compute. reflexivity. Qed.
+
 (** every call through a pointer in the whole library is one of: the two wrappers' final call (through a local pointer whose
     only value is [dlsym] of the wrapper's own name, whatever the variable is called), a registry
     table call (C13: own implementations only), the INI parser's handler/reader, the option registry's parsers *)
@@ -85,5 +90,6 @@ Print Assumptions C01_execve_once_last.
 Print Assumptions C01_execv_once_last.
 Print Assumptions C01_no_other_exec.
 Print Assumptions C01_log_returns.
+Print Assumptions C01_no_shared_static_results.
 Print Assumptions C01_indirect_calls_known.
 Print Assumptions C01_args_by_value_const.
